@@ -114,7 +114,7 @@ static void do_trim(const Path64& p, const std::string& kind) {
       if (p.size() >= 3 || (p.size() == 2 && p[0] != p[1])) emitS("trim.keeps_ends", "SPEC_KEEPS_ENDS " + S(p) + " " + S(r));
       else stat("trim.keeps_ends.degenerate_open_input_returns_empty");
     } else {
-      emitS("trim.area", "SPEC_AREA " + S(p) + " " + S(r));
+      emitS("trim.area", "SPEC_TRIM_AREA " + S(p) + " " + S(r));
     }
     if (forward_only(p, !open) && p.size() >= 3) {
       Path64 r2 = TrimCollinear(r, open != 0);
@@ -137,8 +137,7 @@ static void do_rdp(const Path64& p, double eps, bool exact_range) {
   flags[0] = true; flags[len - 1] = true;
   RDP(p, 0, len - 1, Sqr(eps), flags);
   emitM("rdp.flags.model", "RDPFLAGS " + hexd(eps) + " " + S(p), SF(flags));
-  bool front_eq_back = len >= 2 && p.front() == p.back();
-  if (front_eq_back && len >= 5) { stat("rdp.spec.skipped_front_eq_back"); return; }  // see kf.rdp-closed-front-back
+  if (len >= 2 && p.front() == p.back()) stat("rdp.spec.front_eq_back");
   emitS("rdp.keeps_ends", "SPEC_KEEPS_ENDS " + S(p) + " " + S(r));
   if (exact_range && len >= 5) {
     emitS("rdp.eps", "SPEC_RDP_EPS " + hexd(eps) + " " + S(p) + " " + SF(flags) + " " + S(r));
@@ -253,7 +252,7 @@ int main(int argc, char** argv) {
   Rng g(seed_from_args(argc, argv));
   bool thorough = thorough_from_args(argc, argv);
 
-  // known findings: fixed inputs under their own labels --------------------------------------------------------
+  // corpus record and known finding: fixed inputs under their own labels --------------------------------------------------------
   {
     Path64 w = {{0, 0}, {10, 0}, {20, 0}, {20, 1000}, {0, 0}};
     double eps = 1.0;
@@ -262,7 +261,9 @@ int main(int argc, char** argv) {
     flags[0] = true; flags[w.size() - 1] = true;
     RDP(w, 0, w.size() - 1, Sqr(eps), flags);
     emitM("rdp.model", "RDP " + hexd(eps) + " " + S(w), S(r));
-    emitS("kf.rdp-closed-front-back", "SPEC_RDP_EPS " + hexd(eps) + " " + S(w) + " " + SF(flags) + " " + S(r));
+    // corpus: the input of the RDP front()==back() defect (repaired in /repo by `fix:` 890f843), kept as a regression record
+    emitS("corpus.rdp-front-back", "SPEC_RDP_EPS " + hexd(eps) + " " + S(w) + " " + SF(flags) + " " + S(r));
+    emitS("corpus.rdp-front-back", "SPEC_KEEPS_ENDS " + S(w) + " " + S(r));
     Path64 o = {{0, 0}, {10, 1}, {20, 5}, {30, 2}, {40, 0}};
     double big = 1e200;
     Path64 r2 = SimplifyPath(o, big, false);
